@@ -32,3 +32,67 @@ def float_lemmas(h):
         if int(hours % 24) != (m // 60) % 24 or int(seconds // 60) != m % 60:
             ok = False
     h.oblige("F7  timedelta(minutes=m).total_seconds() divmod 3600 / 60 equals integer arithmetic on minutes", ok)
+
+
+HELPERS = [
+    # (module, function, argument grid, description)
+    ("pyairtouch.at4.comms.utils", "encode_temperature", "tenths:-500:1600", "AT4 temperature encoder"),
+    ("pyairtouch.at4.comms.utils", "decode_temperature", "raw16", "AT4 temperature decoder"),
+    ("pyairtouch.at5.comms.utils", "encode_temperature", "tenths:-500:1600", "AT5 temperature encoder"),
+    ("pyairtouch.at5.comms.utils", "decode_temperature", "raw:0:2047", "AT5 temperature decoder"),
+    ("pyairtouch.at5.comms.utils", "encode_set_point", "tenths:0:400", "AT5 set-point encoder"),
+    ("pyairtouch.at5.comms.utils", "decode_set_point", "raw:0:255", "AT5 set-point decoder"),
+]
+
+
+def _grid(spec):
+    import fractions
+    kind, *rest = spec.split(":")
+    if kind == "tenths":
+        lo, hi = int(rest[0]), int(rest[1])
+        return [(k / 10, fractions.Fraction(k, 10)) for k in range(lo, hi + 1)]
+    if kind == "raw":
+        lo, hi = int(rest[0]), int(rest[1])
+        return [(k, k) for k in range(lo, hi + 1)]
+    if kind == "raw16":
+        return [(k, k) for k in list(range(0, 4096)) + list(range(60000, 65536))]
+    raise KeyError(spec)
+
+
+@oset("float.exactness-of-codec-helpers", PROPS, [m + ":" + f for m, f, _, _ in HELPERS], kind="lemma",
+      assumptions=["the reference value is the helper's own source evaluated over exact rationals by the pyvc interpreter"])
+def float_exactness(h):
+    """The decifloat abstraction is only valid for float expressions that are exact on the 0.1 grid.  For every float
+    helper of the codecs: CPython's floating-point result on every grid point equals the result of evaluating the
+    *same source* over exact rationals.  A float expression that loses a tenth to rounding (e.g. int((x - 10.0) * 10))
+    fails here with the failing input."""
+    import fractions
+    import importlib
+    from pyvc import check as chk
+    from pyvc.interp import Interp, Path
+    from pyvc.values import PyExc
+    loader = h.loader if h.symbolic else (chk._LOADER or chk.build_loader())
+    chk._LOADER = loader
+    it = Interp(loader)
+    it.path = Path([])
+    it.exact_floats = True
+    it.merge_pure = False
+    for mod, fn, spec, what in HELPERS:
+        native = getattr(importlib.import_module(mod), fn)
+        ref = loader.load(mod).ns[fn]
+        bad = None
+        for xf, xq in _grid(spec):
+            try:
+                a = native(xf)
+            except Exception as e:  # noqa: BLE001
+                a = ("raised", type(e).__name__)
+            try:
+                b = it.call(ref, [xq], {})
+            except PyExc as e:
+                b = ("raised", e.value.cls.name)
+            same = (a == b) if not isinstance(b, fractions.Fraction) else (isinstance(a, float) and a == float(b) or a == b)
+            if not same:
+                bad = (xf, a, str(b))
+                break
+        h.oblige(f"{what} ({mod}.{fn}): floating-point result == exact result on every grid point", bad is None,
+                 detail=None if bad is None else f"first differing input {bad[0]!r}: CPython {bad[1]!r}, exact {bad[2]}")
